@@ -4,7 +4,7 @@ partial: the behaviour of the running binary is tied to this model by scenario c
 -/
 import SquidModel.Cache.CondLemmas
 import SquidModel.Cache.CondUpdateLemmas
-import SquidModel.Cache.CondHistory
+import SquidModel.Cache.CondHistoryLemmas
 
 namespace SquidModel.C14
 open SquidModel.Cache.Cond
@@ -110,6 +110,107 @@ theorem full_response_otherwise (e : EntryView) (r : Req)
   · rename_i f hf; simp [him f hf, key]
   · exact key
 
+/-- answer_eq_rfc9110_reference: for every well-formed request (If-None-Match / If-Match fields inside the RFC 9110 list
+grammar with backslash-free entity-tags, any number of field lines, any optional whitespace around the commas; GET or HEAD,
+no Range) and every cached 200 whose ETag is absent or a well-formed entity-tag, the answer to a hit is exactly RFC 9110
+13.2.2 evaluated against the cached response: 412 iff If-Match fails (strong comparison), else 304 iff If-None-Match is
+present and matches (weak comparison, `*`), else — only when If-None-Match is absent — 304 iff If-Modified-Since is a
+valid date not earlier than Last-Modified (or the time the response was received), else the full response. -/
+theorem hit_answer_eq_reference (e : EntryView) (r : Req) (hs : e.status = 200) (het : EtagOk e.etag)
+    (hr : ReqOk r) (hmod : 0 ≤ e.modTime) :
+    hitAnswer e r = verdictAnswer (Ref.eval r.inm r.im r.ims e.etag (some e.modTime)) :=
+  hitAnswer_eq_reference e r hs het hr hmod
+
+/-- the list comparison behind it: `hasOneOfEtags` over `getList` (fields trimmed, joined with ", ", split by
+`strListGetItem`) equals the RFC 9110 element-wise comparison, for any number of well-formed field lines -/
+theorem has_one_of_etags_eq_reference (fs : List Bytes) (ess : List (List El)) (etag : Option Bytes) (w : Bool)
+    (hf : FieldsRender fs ess) (he : EtagOk etag) :
+    hasOneOfEtags etag (listOf fs) w = Ref.fieldMatches fs etag w :=
+  hasOneOfEtags_eq_reference fs ess etag w hf he
+
+/-! ## Histories: miss / hit / revalidation over any number of requests and origin version changes -/
+
+/-- history_sound_partial. Start from an empty cache (or any coherent entry). For every list of well-formed requests, every
+choice of the origin's current version at each step, fresh or stale replies, and any interleaving of misses, hits and
+revalidations: every answer is justified —
+* a 200 carries the body of one version under that version's own ETag and the full Content-Length, and the request's
+  If-Match (if any) names it;
+* a 304 made by Squid means RFC 9110 13.2.2 says "not modified" for the client's request against the cached response;
+* a relayed 304 means the same against the origin's current version, or against the (coherently) updated cached response;
+* a 412 means If-Match fails against the cached response (hit) or against the origin's current version (forwarded);
+and the cache stays coherent —
+provided that at every step (`CleanRun`) (1) the origin's 304 carries no Content-Length, (2) a 304 that revalidates the
+stale entry carries the stored entity-tag, (3) a request with If-Match does not meet a failed revalidation.
+The full statement (without the three exclusions) is false of the real code: see the three counterexamples below. -/
+theorem history_sound_partial (vers : List Ver) (hv : VersOk vers) (steps : List Step) (i : Nat) (s : Option Entry)
+    (hok : ∀ st ∈ steps, StepOk st) (hs : StateOk vers s) (hc : CleanRun vers i steps s) :
+    JustifiedRun vers i steps s ∧ StateOk vers (finalState vers i steps s) :=
+  run_ok hv steps i s hok hs hc
+
+/-- one step of it, for reference: the answer is justified and coherence is preserved -/
+theorem step_sound_partial (vers : List Ver) (hv : VersOk vers) (i : Nat) (st : Step) (hok : StepOk st)
+    (s : Option Entry) (hs : StateOk vers s) (hc : StepClean vers st s) :
+    Justified vers st s (step vers i st s).2.1 ∧ StateOk vers (step vers i st s).1 :=
+  step_ok hv i hok hs hc
+
+/-- Excluded region (2), reproduced on the real binary (finding C14-304-foreign-validator): the cache holds version 0
+(`"a"`), now stale; the origin has moved to version 1 (`"b"`); the client asks `If-None-Match: "b"`. The origin's 304
+(for `"b"`) is merged into the stale entry: the client gets 200 with the body of version 0 under ETag `"b"` and
+version 1's Last-Modified, and so does every later hit. -/
+theorem foreign_validator_counterexample :
+    let vers : List Ver := [⟨some [34, 97, 34], some 1000⟩, ⟨some [34, 98, 34], some 2000⟩]
+    let steps : List Step := [
+      ⟨.get, none, none, .none, 0, .ref, false⟩,
+      ⟨.get, some [[34, 98, 34]], none, .none, 1, .ref, true⟩,
+      ⟨.get, none, none, .none, 1, .ref, true⟩]
+    (run vers 0 steps none).map (·.1) =
+      [.full ⟨some [34, 97, 34], some 1000, false, 0, 0, none⟩ false,
+       .full ⟨some [34, 98, 34], some 2000, true, 0, 1, none⟩ false,
+       .full ⟨some [34, 98, 34], some 2000, true, 0, 1, none⟩ false] := by
+  decide +kernel
+
+/-- Excluded region (1) (finding C14-304-content-length): a revalidation answered `304` + `Content-Length: 0` leaves an
+entry whose stored Content-Length is 0: that answer and every later hit deliver no body (the driver prints `-`). -/
+theorem content_length_counterexample :
+    skipsUpdate "CONTENT_LENGTH" = false →
+    let vers : List Ver := [⟨some [34, 97, 34], some 1000⟩]
+    let steps : List Step := [
+      ⟨.get, none, none, .none, 0, .ref, false⟩,
+      ⟨.get, none, none, .none, 0, .cl 0, true⟩,
+      ⟨.get, none, none, .none, 0, .ref, true⟩]
+    (run vers 0 steps none).map (·.1) =
+      [.full ⟨some [34, 97, 34], some 1000, false, 0, 0, none⟩ false,
+       .full ⟨some [34, 97, 34], some 1000, true, 0, 1, some 0⟩ false,
+       .full ⟨some [34, 97, 34], some 1000, true, 0, 1, some 0⟩ false] := by
+  decide +kernel
+
+/-- Excluded region (3) (finding C14-ifmatch-stale-if-error): stale `"a"`, request `If-Match: "b"`, the origin answers 500:
+the old entry is sent as 200 although If-Match fails for it. -/
+theorem if_match_stale_if_error_counterexample :
+    let vers : List Ver := [⟨some [34, 97, 34], some 1000⟩]
+    let steps : List Step := [
+      ⟨.get, none, none, .none, 0, .ref, false⟩,
+      ⟨.get, none, some [[34, 98, 34]], .none, 0, .err, false⟩]
+    (run vers 0 steps none).map (·.1) =
+      [.full ⟨some [34, 97, 34], some 1000, false, 0, 0, none⟩ false,
+       .full ⟨some [34, 97, 34], some 1000, false, 0, 0, none⟩ false] ∧
+    Ref.fieldMatches [[34, 98, 34]] (some [34, 97, 34]) false = false := by
+  decide +kernel
+
+/-- Not excluded, but worth recording (allowed by the property: "304 only when…"): after a successful revalidation the old
+entry is sent without looking at the client's If-None-Match, so a matching validator still gets the full 200. -/
+theorem missed_304_after_revalidation :
+    let vers : List Ver := [⟨some [34, 97, 34], some 1000⟩]
+    let steps : List Step := [
+      ⟨.get, none, none, .none, 0, .ref, false⟩,
+      ⟨.get, some [[34, 97, 34]], none, .none, 0, .ref, true⟩,
+      ⟨.get, some [[34, 97, 34]], none, .none, 0, .ref, true⟩]
+    (run vers 0 steps none).map (·.1) =
+      [.full ⟨some [34, 97, 34], some 1000, false, 0, 0, none⟩ false,
+       .full ⟨some [34, 97, 34], some 1000, true, 0, 1, none⟩ false,
+       .made304 none (some 1000)] := by
+  decide +kernel
+
 /-! ## What a 304 from the origin does to the stored reply: `HttpHeader::update` -/
 
 /-- later hits carry the updated headers: every header the 304 names (and `skipUpdateHeader` does not exempt) has,
@@ -172,5 +273,30 @@ example : hitAnswer ⟨200, some [34, 97, 34], some 5, 9⟩ ⟨.get, none, some 
 example : hitAnswer ⟨200, some [34, 97, 34], some 5, 9⟩ ⟨.get, none, none, some 5, false⟩ = .notModified := by decide
 example : hitAnswer ⟨200, some [34, 97, 34], some 5, 9⟩ ⟨.get, none, none, some 4, false⟩ = .hit := by decide
 example : skipUpdate "VARY" = true ∧ skipUpdate "ETAG" = false := by decide
+-- the hypotheses of the reference theorems are satisfiable: `"a", W/"b" , *` is a well-formed list with three elements
+example : Renders ([34, 97, 34] ++ ([] ++ comma :: ([32] ++ ([87, 47, 34, 98, 34] ++ ([32] ++ comma :: ([] ++ [star]))))))
+    [.tag false [97], .tag true [98], .star] :=
+  Renders.cons (.tag false [97]) [] [32] _ _ (by show ([97] : Bytes).all okc = true; decide) rfl (by decide)
+    (Renders.cons (.tag true [98]) [32] [] _ _ (by show ([98] : Bytes).all okc = true; decide) (by decide) rfl
+      (Renders.one .star trivial))
+example : EtagOk (some [34, 97, 34]) := EtagOk.tag false [97] (by decide)
+-- and the splitter really differs from the RFC outside them: a backslash before the closing quote swallows the next tag
+example : items [34, 97, 92, 34, 44, 32, 34, 98, 34] = [[34, 97, 92, 34, 44, 32, 34, 98, 34]] := by decide
+example : Ref.elements [[34, 97, 92, 34, 44, 32, 34, 98, 34]] = [[34, 97, 92, 34], [34, 98, 34]] := by decide
+-- a clean history exists (miss, hit with a matching validator, revalidation with the same version)
+example : CleanRun [⟨some [34, 97, 34], some 1000⟩] 0
+    [⟨.get, none, none, .none, 0, .ref, false⟩, ⟨.get, none, none, .time 1000, 0, .ref, true⟩] none := by
+  refine ⟨⟨(by intro n; simp), (by intro e k cl h; cases h), (by intro e h; cases h)⟩,
+    ⟨(by intro n; simp), ?_, (by intro e _ _ h; cases h)⟩, trivial⟩
+  intro e k cl hs _ hr
+  have hs' : e = ⟨some [34, 97, 34], some 1000, false, 0, 0, none⟩ := by
+    have : (step [⟨some [34, 97, 34], some 1000⟩] 0 ⟨.get, none, none, .none, 0, .ref, false⟩ none).1
+        = some ⟨some [34, 97, 34], some 1000, false, 0, 0, none⟩ := by decide +kernel
+    rw [this] at hs; injection hs with hs; exact hs.symm
+  subst hs'
+  have : originReply [⟨some [34, 97, 34], some 1000⟩] ⟨.get, none, none, .time 1000, 0, .ref, true⟩
+      (revalFwd ⟨some [34, 97, 34], some 1000, false, 0, 0, none⟩ ⟨.get, none, none, .time 1000, 0, .ref, true⟩) = .notMod 0 none := by
+    decide +kernel
+  rw [this] at hr; injection hr with hk _; subst hk; rfl
 
 end SquidModel.C14
